@@ -15,6 +15,47 @@ CHECKS = {
         note='Trusted: VersionOps.MustLess as my reading of the order in the property text; the matrix recorder in '
              'harness/checks/c17.py; TLC. The relative order of Google experiments vs drafts is left open.',
         technique='TLA+ arrival state machine + order axioms, TLC exhaustive; trace validation of the recorded comparison matrix'),
+
+    'C12': dict(
+        category='model_checking',
+        text='TLC checks that the as-coded model of ArrayBase (VectorImpl: tracked size, one action per primitive) '
+             'refines the atomic intent (Vector) and keeps tracked = real size, for every edit sequence over 3 items and '
+             'bounds 1..3; the pre-fix code shapes are kept as configurations that must be rejected. Binding: every '
+             'transition of the intent model is chained into behaviours and replayed on real vectors with those bounds; '
+             'random edit histories on all 43 vector classes of the library are validated line by line by Trace_Vector.',
+        design_ref='6/C12',
+        note='Trusted: PySeq (Python list semantics, cross-checked against a real list on every trace line), reference '
+             'item sizes measured on real compose() output, the Tiny* replay subclasses; slices with step != 1 not generated.',
+        technique='TLA+ refinement VectorImpl => Vector checked by TLC; replay of TLC-enumerated transitions; trace validation'),
+    'C04': dict(
+        category='model_checking',
+        text='Stream.tla models peer, channel and reader loop; TLC explores every interleaving and every contract-conforming '
+             'missing-byte count for 4 frames with chunks 1..3, lock-step and free peers, safety (NoOverAsk, FramesIntact, '
+             'NoPrefixAccept) and liveness under weak fairness; over-asking and prefix-accepting parsers are rejected. The '
+             'real reader loop over real composed frames of every record layer is run for every single cut position, sampled '
+             'cut pairs, byte-wise and random schedules, and every proper prefix of every frame; Trace_Stream checks the '
+             'contract and the invariant at every step.',
+        design_ref='6/C04',
+        note='Trusted: frame boundaries from compose(); Framing.DeclaredLen as my reading of the protocol documents; the '
+             'harness reader loop mirrors Stream.ReaderTry (disagreement is a machinery failure).',
+        technique='TLA+ Stream state machine, TLC safety+liveness; trace validation of the real reader loop'),
+    'C03': dict(
+        category='model_checking',
+        text='ParseApi.tla states the contract of the three entry points; Framing.tla the declared frame lengths. Every '
+             'accepted corpus input of every class and mutants of it are given to all three entry points and TLC validates '
+             'each observation (consumed range, prefix removal, exact-size iff n = len, failure leaves the buffer, framing '
+             'units self-delimiting with n = declared length).',
+        design_ref='6/C03',
+        note='Trusted: projection equality, DeclaredLen transcription. Exploration of inputs is finite (corpus + mutants).',
+        technique='TLA+ contract (ParseApi, Framing) evaluated by TLC on recorded observations of the real entry points'),
+    'C02': dict(
+        category='exploration',
+        text='Mutation fuzzing of every class that has an accepted corpus input (367 classes), all three entry points; TLC '
+             'judges each observation against ParseApi.Outcome. Leaks are keyed by (exception type, innermost cryptoparser '
+             'frame); the recorded ones are listed in known_findings.json.',
+        design_ref='6/C02',
+        note='Finite exploration; new inputs may reach leak sites not yet listed (they are then reported as violations).',
+        technique='TLA+ outcome contract evaluated by TLC on traces of mutated inputs'),
 }
 
 NOT_APPLICABLE = {}
